@@ -563,6 +563,53 @@ func Run(r *fw.Run) {
 	}
 	r.Merge(l)
 
+	// resources: CheckDir and CreateFromDir over a tree with more files than the process may have descriptors open
+	{
+		base := filepath.Join(r.Scratch(), "fdlimit")
+		os.RemoveAll(base)
+		var want []string
+		for i := 0; i < 500; i++ {
+			n := fmt.Sprintf("d%d/f%04d.go", i%7, i)
+			full := filepath.Join(base, filepath.FromSlash(n))
+			os.MkdirAll(filepath.Dir(full), 0o755)
+			os.WriteFile(full, []byte("package p\n"), 0o644)
+			want = append(want, n)
+		}
+		os.WriteFile(filepath.Join(base, "go.mod"), []byte("module example.com/m\n"), 0o644)
+		want = append(want, "go.mod")
+		sort.Strings(want)
+		var cd modzip.CheckedFiles
+		var e1, e2 error
+		var buf bytes.Buffer
+		ok := fw.WithFDLimit(120, func() {
+			cd, e1 = modzip.CheckDir(base)
+			e2 = modzip.CreateFromDir(&buf, module.Version{Path: "example.com/m", Version: "v1.0.0"}, base)
+		})
+		os.RemoveAll(base)
+		r.States.Add(1)
+		r.Execs.Add(2)
+		r.Bounds["descriptor_limit"] = "a tree of 501 files with at most 120 open descriptors (CheckDir, CreateFromDir)"
+		var got []string
+		for _, v := range cd.Valid {
+			// CheckDir reports file system paths
+			got = append(got, filepath.ToSlash(strings.TrimPrefix(v, base+string(filepath.Separator))))
+		}
+		sort.Strings(got)
+		if ok && (e1 != nil || e2 != nil || zipx.Join(got) != zipx.Join(want)) {
+			diff := ""
+			for i := range want {
+				if i >= len(got) || got[i] != want[i] {
+					diff = fmt.Sprintf("first difference at %d: want %q", i, want[i])
+					if i < len(got) {
+						diff += fmt.Sprintf(" got %q", got[i])
+					}
+					break
+				}
+			}
+			r.Violation("fd-limit", fmt.Sprintf("a tree of 501 files with at most 120 open descriptors: CheckDir err=%v (%d valid, %s), CreateFromDir err=%v", e1, len(cd.Valid), diff, e2), caseT{Kind: "fd-limit"})
+		}
+	}
+
 	// mode bits beyond the four classes: a file is regular, a directory, a symbolic link or irregular; other
 	// bits (permissions, setuid, sticky, append-only, which kind of irregular) must not matter
 	{
